@@ -259,25 +259,27 @@ def check(tier: str) -> int:
     astgrammar.write()
     run = core.Run("C11", tier)
     g = gram()
-    run.rule = (f"cases = one-hole paths (depth <= 2) through all {len(g['expr'])} expression kinds of the running interpreter with "
+    run.rule = (f"cases = one-hole paths (depth <= 2 quick / <= 3 thorough) through all {len(g['expr'])} expression kinds of the running interpreter with "
                 "canonical safe fillers, emitted by TLC with the policy verdict and compiled by ExpressionEvaluator; plus an "
                 "escape-idiom corpus planted at 20 host positions; non-trivial = forbidden paths that are realisable as source")
     run.assumptions = ["trees that do not survive parse(unparse(t)) = t are not strings a user can write and are dropped",
                        "confinement of evaluation is observed with sys.addaudithook (import/open/exec/compile/os.*) -- a measurement",
                        "acceptance is compositional, so one-hole paths with safe siblings cover every child position"]
-    res = tlc.run_tlc("SafeExpr", "SafeExpr.d2.TRUE", coverage=True, timeout=1800)
+    depth = "d2" if tier == "quick" else "d3"
+    res = tlc.run_tlc("SafeExpr", f"SafeExpr.{depth}.TRUE", coverage=True, timeout=3000)
     run.add_tlc(res)
-    run.require_tlc_ok(res, "SafeExpr.d2.TRUE")
+    run.require_tlc_ok(res, f"SafeExpr.{depth}.TRUE")
+    run.constants = {"MaxDepth": 2 if tier == "quick" else 3}
     sens = tlc.run_tlc("SafeExpr", "SafeExpr.d2.FALSE", timeout=900, expect_violation=True)
     if sens.violated != "VisitorMatchesPolicy":
         raise core.MachineryError("sensitivity: a visitor that skips call keywords should violate VisitorMatchesPolicy")
     run.add_tlc(sens, count_states=False)
     corpus_check(run)
-    res, path = tlc.emit_cases("SafeExpr", "SafeExpr.d2.emit" if tier == "thorough" else "SafeExpr.d2.emit", timeout=1800)
+    res, path = tlc.emit_cases("SafeExpr", f"SafeExpr.{depth}.emit", timeout=6000)
     run.add_tlc(res, count_states=False)
     tot = {"n": 0, "unrealisable": 0, "accepted": 0, "rejected": 0}
     try:
-        for r in pmap(replay_chunk, tlc.iter_emitted(path), chunk=800):
+        for r in pmap(replay_chunk, tlc.iter_emitted(path), chunk=4000 if tier == 'thorough' else 800):
             for k in tot:
                 tot[k] += r[k]
             for key, what, rep in r["viol"]:
